@@ -62,6 +62,10 @@ func checkC20(r *core.Run) {
 		for _, site := range tsDirSites {
 			for _, src := range srcs {
 				atomic.AddInt64(&evals, 1)
+				if p, msg := core.Try(func() { site.f(tuc.TrustedSourceFromStringKnownToSatisfyTypeContract(src), fn) }); p {
+					r.Witness("panic", "", fn, fmt.Sprintf("TrustedSourceFromConstantDir(%s,%s,%s) panicked: %s", core.Q(site.dir), core.Q(src), core.Q(fn), msg), nil)
+					continue
+				}
 				ts, err := site.f(tuc.TrustedSourceFromStringKnownToSatisfyTypeContract(src), fn)
 				if err == nil {
 					atomic.AddInt64(&accepted, 1)
@@ -82,6 +86,8 @@ func checkC20(r *core.Run) {
 	r.Set("layer_class_strings", fmt.Sprintf("%d symbols, length<=%d: %d filenames x %d dirs x %d srcs", len(alpha), ln, st.States, len(tsDirSites), len(srcs)))
 	st2 := enum.Seqs(enum.Bytes256(), 2, func(s string, _ []int) { eval(s); eval(".." + s); eval(s + "..") })
 	r.Set("layer_bytes", fmt.Sprintf("all byte strings length<=2, alone and around '..': %d", st2.States*3))
+	nl := enum.Long([]string{"a", "\u00e9", "\u65e5", "\U0001F600", "\xff", ".", " "}, []string{"/x", "/../x", ":", "..", "/", "/../../etc/passwd", ":other", "\\x"}, 300, func(s string) { eval(s) })
+	r.Set("layer_long", fmt.Sprintf("7 padding units x 8 cores x every padding length 0..300 x 3 placements: %d filenames", nl))
 	r.Set("evaluations", evals)
 	r.Set("distinct_nontrivial", accepted)
 	r.Set("rule", "exhaustive enumeration of filenames per layer x all generated constant dir call sites x srcs; non-trivial = the call succeeded, so the containment clause was evaluated on a real path")
